@@ -47,6 +47,7 @@ NATIVE_RECURSION = [
     ("deep-nesting-native-recursion", "let a = map {};\nlet i = 0;\nwhile i < 200000 { a = map {1: a}; i = i + 1; }\n0\n"),
     ("self-containing-compare-or-hash", "let a = [1];\npush(a, a);\na == a\n"),
     ("self-containing-compare-or-hash", "let a = [1];\npush(a, a);\nlet m = map {};\nm[a] = 1;\n0\n"),
+    ("map-inside-its-own-key", "let m = map {};\ninsert(m, [m], 1);\ninsert(m, [map {}], 2);\n0\n"),
 ]
 
 
